@@ -1688,7 +1688,15 @@ impl Tree {
 		checkpoint_dir: P,
 	) -> Result<CheckpointMetadata> {
 		let checkpoint = DatabaseCheckpoint::new(Arc::clone(&self.core.inner));
-		checkpoint.create_checkpoint(checkpoint_dir)
+		let result = checkpoint.create_checkpoint(checkpoint_dir);
+		// The checkpoint flushed the memtables into level 0 itself, behind the back
+		// of the flush task - which is what normally hands over to compaction.
+		// Without this, checkpoints taken between commits pile tables up in level 0
+		// until writers wait in the write stall for a compaction nobody started.
+		if let Some(task_manager) = self.core.task_manager.lock().unwrap().as_ref() {
+			task_manager.wake_up_level();
+		}
+		result
 	}
 
 	/// Restores the database from a checkpoint directory.
